@@ -211,12 +211,33 @@ def _boom(e):
     raise ZeroDivisionError("predicate bug")
 
 
+import dataclasses as _dc
+
+
+@_dc.dataclass
+class DataclassPolicy:
+    """a user retry policy written as a plain dataclass (eq=True makes it unhashable), with and without `seed`"""
+    max_attempts: int = 2
+    delay: float = 0.0
+
+    def next(self, elapsed_time, attempts, error, *, seed=None):
+        return None if attempts >= self.max_attempts else self.delay
+
+
+@_dc.dataclass
+class DataclassPolicyNoSeed:
+    max_attempts: int = 2
+
+    def next(self, elapsed_time, attempts, error):
+        return None if attempts >= self.max_attempts else 0.0
+
+
 def exits(rng):
     """Every way a run can end: result, step failure (with/without retries), a retry policy or retry predicate that
     raises, a step returning a non-event, several invocations racing to return StopEvent, user cancellation at a random
     moment, the workflow timeout, and a body that publishes while it is being cancelled."""
     mode = rng.choice(["result", "step_fail", "policy_raises", "pred_raises", "other_return", "stop_race", "cancel",
-                       "timeout", "cancel", "timeout", "finally_publish"])
+                       "timeout", "cancel", "timeout", "finally_publish", "user_policy_object"])
     n = rng.choice([1, 2, 3])
     k = rng.choice([1, 2, 3])
     pol = None
@@ -229,6 +250,9 @@ def exits(rng):
         bscript = [("gate", "w"), ("raise", "value", "boom")]
     elif mode == "policy_raises":
         pol = RaisingPolicy()
+        bscript = [("gate", "w"), ("raise", "value", "boom")]
+    elif mode == "user_policy_object":
+        pol = rng.choice([DataclassPolicy(rng.choice([1, 2, 3]), rng.choice([0.0, 0.5])), DataclassPolicyNoSeed(rng.choice([1, 2]))])
         bscript = [("gate", "w"), ("raise", "value", "boom")]
     elif mode == "pred_raises":
         pol = rp.retry_policy(retry=rp.retry_if_exception(_boom), wait=rp.wait_fixed(0), stop=rp.stop_after_attempt(3))
@@ -292,3 +316,194 @@ def countflow(rng):
     })
     spec["count_n"], spec["fail_until"] = n, f
     return spec, [], dict(policy=rng.choice(["random", "lifo", "fifo"]))
+
+
+# ---- templates for the runner differential (suites/runnerdiff.py): every body except the start step begins with a
+# gate, so that a worker completes only when the driver says so (the model's AWorkerDone action)
+def rd_fan(rng):
+    n = rng.choice([1, 2, 3])
+    k = rng.choice([1, 2, 3])
+    fail = rng.choice([0, 0, 1, 2])
+    delay = rng.choice([0, 0.5, 2.0])
+    pol = rp.retry_policy(wait=rp.wait_fixed(delay), stop=rp.stop_after_attempt(4)) if fail else None
+    work = [("gate", "w")] + ([("fail_until", fail, "value")] if fail else []) + [("return", T2)]
+    spec = dict(steps={
+        "a_start": dict(accepts=[StartEvent], returns=[T1, type(None)], num_workers=1,
+                        script=[("send", T1, n, None), ("return", None)]),
+        "b_work": dict(accepts=[T1], returns=[T2], num_workers=k, policy=pol, script=work),
+        "c_gather": dict(accepts=[T2], returns=[StopEvent, type(None)], num_workers=rng.choice([1, 2]),
+                         script=[("gate", "c"), ("collect", [T2] * n, None), ("return", StopEvent)]),
+    })
+    return spec, [], dict(policy=rng.choice(["random", "lifo", "fifo"]))
+
+
+def rd_wait(rng):
+    n = rng.choice([1, 2, 3])
+    k = rng.choice([1, 2, 3])
+    wev = rng.choice([None, IR])
+    spec = dict(steps={
+        "a_start": dict(accepts=[StartEvent], returns=[T1, type(None)], num_workers=1,
+                        script=[("send", T1, n, None), ("return", None)]),
+        "b_wait": dict(accepts=[T1], returns=[T2], num_workers=k,
+                       script=[("gate", "g"), ("wait", HR, {"k": "$i"}, rng.choice([5.0, 50.0]), None, wev, "none"),
+                               ("return", T2)]),
+        "c_gather": dict(accepts=[T2], returns=[StopEvent, type(None)], num_workers=1,
+                         script=[("gate", "c"), ("collect", [T2] * n, None), ("return", StopEvent)]),
+    })
+    ids = list(range(1, n + 1))
+    rng.shuffle(ids)
+    if rng.random() < 0.4:
+        ids.append(rng.choice(ids))
+
+    def mk(i):
+        def f(handler, rec):
+            rec.ev("external", ev="HR", k=i)
+            handler.ctx.send_event(HR(k=i))
+        f.label = "HR(k=%d)" % i
+        return f
+    return spec, [mk(i) for i in ids], dict(policy=rng.choice(["random", "lifo", "fifo"]))
+
+
+def rd_ir(rng):
+    n = rng.choice([1, 2, 3])
+    spec = dict(steps={
+        "a_start": dict(accepts=[StartEvent], returns=[T1, type(None)], num_workers=1,
+                        script=[("send", T1, n, None), ("return", None)]),
+        "b_ask": dict(accepts=[T1], returns=[IR], num_workers=rng.choice([1, 2]), script=[("gate", "w"), ("return", IR)]),
+        "c_answer": dict(accepts=[HR], returns=[T2], num_workers=rng.choice([1, 2]), script=[("gate", "c"), ("return", T2)]),
+        "d_gather": dict(accepts=[T2], returns=[StopEvent, type(None)], num_workers=1,
+                         script=[("gate", "d"), ("collect", [T2] * n, None), ("return", StopEvent)]),
+    })
+
+    def mk(i):
+        def f(handler, rec):
+            rec.ev("external", ev="HR", k=i)
+            handler.ctx.send_event(HR(k=i))
+        f.label = "HR(k=%d)" % i
+        return f
+    return spec, [mk(i) for i in range(1, n + 1)], dict(policy=rng.choice(["random", "lifo", "fifo"]))
+
+
+def retrywait(rng):
+    """a delayed retry pending BEHIND an earlier wake-up: start sends one T1 to `b_work` (fails `f` times, retry delay 3-6 s)
+    and one T3 to `w_wait`, which waits for an HR that may never come with a time-out shorter than the retry delay; the
+    run ends when b_work succeeds (-> Stop).  While the retry waits out its delay the earliest scheduled wake-up is the
+    waiter time-out (or, in the other variant, the workflow time-out)."""
+    f = rng.choice([1, 2])
+    delay = rng.choice([3.0, 6.0])
+    wt = rng.choice([0.5, 1.0, 2.0])
+    pol = rp.retry_policy(wait=rp.wait_fixed(delay), stop=rp.stop_after_attempt(4))
+    spec = dict(steps={
+        "a_start": dict(accepts=[StartEvent], returns=[T1, T3, type(None)], num_workers=1,
+                        script=[("send", T1, 1, None), ("send", T3, 1, None), ("return", None)]),
+        "b_work": dict(accepts=[T1], returns=[StopEvent], num_workers=1, policy=pol,
+                       script=[("gate", "w"), ("fail_until", f, "value"), ("return", StopEvent)]),
+        "w_wait": dict(accepts=[T3], returns=[StopEvent, type(None)], num_workers=1,
+                       script=[("gate", "g"), ("wait", HR, {"k": 77}, wt, None, None, "none"), ("return", None)]),
+    })
+    spec["retry_delay"] = delay
+    return spec, [], dict(policy=rng.choice(["random", "fifo", "lifo"]), time_bias=0.3)
+
+
+def twowaits(rng):
+    """a step with TWO sequential wait_for_event calls: start sends n T1 -> `b_two` waits for HR(k=i) (publishing an IR
+    question), then for T3(k=i) (publishing a second IR), then returns T2 -> `c_gather` collects n T2 -> Stop.  The answers
+    arrive in a random order (each exactly once, sometimes an HR duplicated)."""
+    n = rng.choice([1, 2, 3])
+    k = rng.choice([1, 2, 3])
+    spec = dict(steps={
+        "a_start": dict(accepts=[StartEvent], returns=[T1, type(None)], num_workers=1,
+                        script=[("send", T1, n, None), ("return", None)]),
+        "b_two": dict(accepts=[T1], returns=[T2], num_workers=k,
+                      script=[("wait", HR, {"k": "$i"}, 500.0, None, IR, "none"),
+                              ("wait", T3, {"k": "$i"}, 500.0, None, IR, "none"),
+                              ("gate", "w"), ("return", T2)]),
+        "c_gather": dict(accepts=[T2], returns=[StopEvent, type(None)], num_workers=1,
+                         script=[("collect", [T2] * n, None), ("return", StopEvent)]),
+    })
+    sends = [("HR", i) for i in range(1, n + 1)] + [("T3", i) for i in range(1, n + 1)]
+    # every T3 answer comes after the HR answer of the same invocation (the second wait does not exist before)
+    rng.shuffle(sends)
+    sends.sort(key=lambda s: 0)  # keep shuffle
+    order, seen_hr = [], set()
+    pending_t3 = []
+    for kind, i in sends:
+        if kind == "HR":
+            order.append((kind, i))
+            seen_hr.add(i)
+            for p in [p for p in pending_t3 if p == i]:
+                order.append(("T3", p))
+                pending_t3.remove(p)
+        elif i in seen_hr:
+            order.append((kind, i))
+        else:
+            pending_t3.append(i)
+    if rng.random() < 0.3 and n:
+        order.insert(rng.randrange(len(order) + 1), ("HR", rng.randint(1, n)))
+
+    def mk(kind, i):
+        def f(handler, rec):
+            rec.ev("external", ev=kind, k=i)
+            handler.ctx.send_event((HR if kind == "HR" else T3)(k=i))
+        f.label = "%s(k=%d)" % (kind, i)
+        return f
+    spec["two_waits"] = n
+    return spec, [mk(kind, i) for kind, i in order], dict(policy=rng.choice(["random", "lifo", "fifo"]))
+
+
+def queuewait(rng):
+    """retry budgets of an event that first had to WAIT IN THE QUEUE: start sends n T1 to `b_work` (k < n workers); every
+    invocation works for `w` s (virtual sleep), fails `f` times with a retry delay `d`, then returns T2; `c_gather` collects
+    n T2 -> Stop.  Elapsed time of an event's retries is measured from the start of ITS first attempt, not from when it was
+    queued."""
+    n = rng.choice([2, 3, 4])
+    k = rng.choice([1, 1, 2])
+    w = rng.choice([0.5, 1.0, 2.0])
+    f = rng.choice([1, 2])
+    d = rng.choice([0.25, 0.5])
+    pol = rp.retry_policy(wait=rp.wait_fixed(d), stop=rp.stop_after_delay(rng.choice([30.0, 60.0])))
+    spec = dict(steps={
+        "a_start": dict(accepts=[StartEvent], returns=[T1, type(None)], num_workers=1,
+                        script=[("send", T1, n, None), ("return", None)]),
+        "b_work": dict(accepts=[T1], returns=[T2], num_workers=k, policy=pol,
+                       script=[("sleep", w), ("fail_until", f, "value"), ("return", T2)]),
+        "c_gather": dict(accepts=[T2], returns=[StopEvent, type(None)], num_workers=1,
+                         script=[("collect", [T2] * n, None), ("return", StopEvent)]),
+    })
+    return spec, [], dict(policy="random", time_bias=1.0)
+
+
+def tworetries(rng):
+    """two steps retrying at the same time with different delays: `b_quick` (T1) fails once, retry after 0.25-0.5 s, then
+    returns None; `b_slow` (T3) fails once, retry after 3-6 s, then returns Stop.  After the quick retry has fired and
+    finished, the only pending work is the slow retry."""
+    dq, ds = rng.choice([0.25, 0.5]), rng.choice([3.0, 6.0])
+    spec = dict(steps={
+        "a_start": dict(accepts=[StartEvent], returns=[T1, T3, type(None)], num_workers=1,
+                        script=[("send", T1, 1, None), ("send", T3, 1, None), ("return", None)]),
+        "b_quick": dict(accepts=[T1], returns=[StopEvent, type(None)], num_workers=1,
+                        policy=rp.retry_policy(wait=rp.wait_fixed(dq), stop=rp.stop_after_attempt(3)),
+                        script=[("gate", "q"), ("fail_until", 1, "value"), ("return", None)]),
+        "b_slow": dict(accepts=[T3], returns=[StopEvent], num_workers=1,
+                       policy=rp.retry_policy(wait=rp.wait_fixed(ds), stop=rp.stop_after_attempt(3)),
+                       script=[("gate", "s"), ("fail_until", 1, "value"), ("return", StopEvent)]),
+    })
+    spec["retry_delay"] = ds
+    return spec, [], dict(policy=rng.choice(["random", "fifo", "lifo"]), time_bias=0.3)
+
+
+def collectfail(rng):
+    """a collecting step that FAILS after collect_events handed it a full set and is retried: start sends n T2 to
+    `c_gather` (1-2 workers, zero-delay retries), which collects n T2, raises on its first attempt, and on the retry must
+    get the same full set again (the buffer is deleted only when the step completes)."""
+    n = rng.choice([1, 2, 3])
+    spec = dict(steps={
+        "a_start": dict(accepts=[StartEvent], returns=[T2, type(None)], num_workers=1,
+                        script=[("send", T2, n, None), ("return", None)]),
+        "c_gather": dict(accepts=[T2], returns=[StopEvent, type(None)], num_workers=rng.choice([1, 1, 2]),
+                         policy=rp.retry_policy(wait=rp.wait_fixed(rng.choice([0, 0.25])), stop=rp.stop_after_attempt(3)),
+                         script=[("gate", "c"), ("collect", [T2] * n, None), ("fail_until", 1, "value"), ("return", StopEvent)]),
+    }, timeout=300.0)
+    spec["collect_n"], spec["collect_rounds"], spec["collect_k"] = n, 1, 1
+    spec["collect_then_fail"] = True
+    return spec, [], dict(policy=rng.choice(["random", "fifo"]))
